@@ -402,6 +402,7 @@ pub fn truncate_json(v: &mut Value, max: usize) {
 
 thread_local! {
     static LAST_PANIC: RefCell<Option<(String, String)>> = RefCell::new(None);
+    static CATCH_DEPTH: RefCell<u32> = RefCell::new(0);
 }
 
 pub fn install_panic_hook() {
@@ -409,6 +410,8 @@ pub fn install_panic_hook() {
         let msg = if let Some(s) = info.payload().downcast_ref::<String>() { s.clone() }
             else if let Some(s) = info.payload().downcast_ref::<&str>() { s.to_string() } else { "?".to_string() };
         let loc = info.location().map(|l| format!("{}:{}", l.file(), l.line())).unwrap_or_default();
+        // a panic outside `catch` is a bug of the harness itself: make it visible in the worker's log
+        if CATCH_DEPTH.with(|d| *d.borrow()) == 0 { eprintln!("HARNESS PANIC: {} at {}", msg, loc); }
         LAST_PANIC.with(|p| *p.borrow_mut() = Some((msg, loc)));
     }));
 }
@@ -416,7 +419,10 @@ pub fn install_panic_hook() {
 /// Run `f`, catching panics. Err((normalised message, location)).
 pub fn catch<T>(f: impl FnOnce() -> T) -> Result<T, (String, String)> {
     LAST_PANIC.with(|p| *p.borrow_mut() = None);
-    match std::panic::catch_unwind(std::panic::AssertUnwindSafe(f)) {
+    CATCH_DEPTH.with(|d| *d.borrow_mut() += 1);
+    let r = std::panic::catch_unwind(std::panic::AssertUnwindSafe(f));
+    CATCH_DEPTH.with(|d| *d.borrow_mut() -= 1);
+    match r {
         Ok(v) => Ok(v),
         Err(e) => {
             let from_hook = LAST_PANIC.with(|p| p.borrow_mut().take());
